@@ -19,6 +19,7 @@ const secKinds2Doc = `{"openapi":"3.0.3","info":{"title":"t","version":"1"},
  "/t":{"get":{"operationId":"opBearer","security":[{"HT":[]}],"responses":{"200":{"description":"ok"}}}},
  "/b":{"get":{"operationId":"opBasic","security":[{"HB":[]}],"responses":{"200":{"description":"ok"}}}},
  "/alt":{"get":{"operationId":"opAlt","security":[{"KH2":[]},{"HT":[]}],"responses":{"200":{"description":"ok"}}}},
+ "/both":{"get":{"operationId":"opBoth","security":[{"HB":[],"HT":[]}],"responses":{"200":{"description":"ok"}}}},
  "/altanon":{"get":{"operationId":"opAltAnon","security":[{"KH2":[]},{}],"responses":{"200":{"description":"ok"}}}},
  "/p/{n}":{"get":{"operationId":"opParams","security":[{"HT":[]}],
    "parameters":[{"name":"n","in":"path","required":true,"schema":{"type":"integer","maximum":100}},{"name":"q","in":"query","required":true,"schema":{"type":"string"}}],
@@ -133,6 +134,32 @@ func c09Extra(r *lp.Run, drv *gc.Driver, pkg *gc.Pkg) {
 		expect("only a skipped alternative ("+skip+")", map[string]any{"path": "/alt", "KH2": skip, "HT": "absent"}, ans, false)
 		ans = raw("/altanon", "", map[string][]string{"X-Api-Key-V2": {"k"}}, map[string]any{"security": map[string]string{"KH2": skip}})
 		expect("skipped alternative ("+skip+") next to the anonymous one", map[string]any{"path": "/altanon", "KH2": skip}, ans, true)
+	}
+	// (e) K26: a security handler error that wraps ht.ErrNotImplemented is answered 501, not 401
+	{
+		ans := raw("/t", "", map[string][]string{"Authorization": {"Bearer tok"}}, map[string]any{"security": map[string]string{"HT": "reject-notimpl"}})
+		_, handler := c09SecCalls(ans)
+		status := fmt.Sprint(ans["status"])
+		r.PropCheck()
+		r.Count("k26", "authz:notimpl", true)
+		switch {
+		case handler:
+			r.Fail(lp.PropFail{Property: "C09", What: "a rejected credential reaches the handler", Input: "security handler error wrapping ErrNotImplemented", Observed: status, Expected: "401, handler not invoked"})
+		case status != "401":
+			r.Known(lp.PropFail{Property: "C09", Class: "K26", What: "a security handler error that wraps ht.ErrNotImplemented is answered " + status + " instead of 401", Input: map[string]any{"path": "/t", "HT": "error wrapping ht.ErrNotImplemented"}, Observed: status, Expected: "401"})
+		}
+	}
+	// (f) K27: an alternative that needs basic and bearer together, through the generated client
+	{
+		ans, _ := drv.Do(map[string]any{"pkg": pkg.Name, "cmd": "call", "op": "OpBoth", "script": map[string]any{
+			"client_creds": map[string]any{"HB": map[string]any{"Username": "u", "Password": "p"}, "HT": map[string]any{"Token": "tok"}},
+			"security":     map[string]string{"HB": "accept", "HT": "accept"}}})
+		calls, handler := c09SecCalls(ans)
+		r.PropCheck()
+		r.Count("k27", "authz:both", true)
+		if !handler {
+			r.Known(lp.PropFail{Property: "C09", Class: "K27", What: "an alternative requiring http basic and bearer together cannot be met through the generated client: both schemes write the Authorization header, the later one wins", Input: map[string]any{"operation": "OpBoth", "client_creds": "basic u:p + bearer tok"}, Observed: "server saw " + strings.Join(calls, " ") + fmt.Sprint(" client=", ans["client"]), Expected: "both credentials extracted, handler invoked"})
+		}
 	}
 	// (d) unmet security comes first: a request that is also malformed is answered 401, not 400
 	for _, q := range []struct{ path, query string }{{"/p/abc", "q=x"}, {"/p/7", ""}, {"/p/1000", "q=x"}, {"/p/abc", ""}} {
